@@ -197,6 +197,78 @@ def c01_one_deadline(tier="quick", seed=0):
     return out
 
 
+@groups.group(id="C01.current-vm", prop="C01", kind="K3", functions=["microjs.context:Context.eval", "microjs.context:Context._create_eval_function"])
+def c01_current_vm(tier="quick", seed=0):
+    """the running VM (whose deadline nested code and RegExp objects inherit) is tracked by a stack discipline:
+    the entry point sets it and clears it in a finally; every other site that sets it saves the previous value
+    first and restores exactly that value in a finally"""
+    from pyvc import structural as S
+    import ast
+    out = []
+    tree = S.module("microjs.context")
+    sites = 0
+    for f in ast.walk(tree):
+        if not isinstance(f, (ast.FunctionDef,)):
+            continue
+        own = [n for n in ast.walk(f) if isinstance(n, ast.Assign) and len(n.targets) == 1 and isinstance(n.targets[0], ast.Attribute)
+               and n.targets[0].attr == "_current_vm"]
+        # only the innermost function containing the assignment
+        own = [n for n in own if not any(n in list(ast.walk(g)) for g in ast.walk(f) if isinstance(g, ast.FunctionDef) and g is not f)]
+        if not own or f.name == "__init__":
+            continue
+        sites += 1
+        src = ast.unparse(f)
+        tries = [t for t in ast.walk(f) if isinstance(t, ast.Try) and t.finalbody]
+        restores = [n for t in tries for st in t.finalbody for n in ast.walk(st) if n in own]
+        sets = [n for n in own if n not in restores]
+        ok = len(sets) == 1 and len(restores) == 1
+        detail = ""
+        if ok:
+            rv = restores[0].value
+            if f.name == "eval":
+                ok = isinstance(rv, ast.Constant) and rv.value is None
+                detail = "entry point: cleared in finally"
+            else:
+                # restored value must be a name assigned from <x>._current_vm before the set
+                ok = isinstance(rv, ast.Name)
+                if ok:
+                    saves = [n for n in ast.walk(f) if isinstance(n, ast.Assign) and len(n.targets) == 1 and isinstance(n.targets[0], ast.Name)
+                             and n.targets[0].id == rv.id and isinstance(n.value, ast.Attribute) and n.value.attr == "_current_vm"]
+                    ok = len(saves) == 1 and saves[0].lineno < sets[0].lineno
+                detail = "nested entry: previous value saved before the set and restored in finally"
+        out.append(ob(f"C01.current-vm.{f.name}", ok, "K3", detail if ok else f"{f.name}: _current_vm is set {len(sets)}x and restored {len(restores)}x in finally; restore value {ast.unparse(restores[0].value) if restores else None}",
+                      witness="eval('1'); /(a*)*b/.test(long) after an indirect eval (the RegExp gets no deadline)"))
+    out.append(ob("C01.current-vm.sites", sites >= 2, "K3", f"{sites} functions set Context._current_vm"))
+    return out
+
+
+@groups.group(id="C01.regex-polls", prop="C01", kind="K3", functions=["microjs.regex.vm:RegexVM"])
+def c01_regex_polls(tier="quick", seed=0):
+    """every backtracking loop of the regex VM (main matcher, lookahead and lookbehind sub-matchers) counts its steps
+    and polls the deadline callback every poll_interval steps, raising RegexTimeoutError"""
+    from pyvc import structural as S
+    import ast
+    out = []
+    tree = S.module("microjs.regex.vm")
+    loops = 0
+    for f in ast.walk(tree):
+        if not isinstance(f, ast.FunctionDef):
+            continue
+        for w in [n for n in f.body if isinstance(n, ast.While)] + [n for st in f.body if isinstance(st, (ast.If, ast.Try, ast.With)) for n in ast.walk(st) if isinstance(n, ast.While)]:
+            if not (isinstance(w.test, ast.Constant) and w.test.value is True):
+                continue
+            loops += 1
+            head = w.body[:3]
+            txt = "\n".join(ast.unparse(x) for x in head)
+            counts = any(isinstance(x, ast.AugAssign) and isinstance(x.op, ast.Add) and ast.unparse(x.target) == "step_count" for x in head)
+            polls = "step_count % self.poll_interval == 0" in txt and "self.poll_callback()" in txt and "raise RegexTimeoutError" in txt
+            out.append(ob(f"C01.regex-polls.{f.name}", counts and polls, "K3",
+                          f"{f.name}: loop at line {w.lineno} {'counts steps and polls the deadline first' if counts and polls else 'does not start by counting a step and polling the deadline'}",
+                          witness="/(?<=(?:a|a)*c)x/.test('aaaaaaaaaaaaaaaaaaaaaaaaaaaaax') under a time limit"))
+    out.append(ob("C01.regex-polls.inventory", loops >= 3, "K3", f"{loops} backtracking loops inspected"))
+    return out
+
+
 # ---- bounded: construct x placement library under a real time limit ---------------------------------
 LOOPS = {
     "while": "while(true){}",
@@ -236,6 +308,12 @@ REGEX = {
     "regex-ctor": "new RegExp('(a*)*b').test('aaaaaaaaaaaaaaaaaaaaaaaaaaaaaaaa')",
     "regex-string-pattern": "'aaaaaaaaaaaaaaaaaaaaaaaaaaaaaaaa'.match('(a*)*b')",
     "regex-lookahead": "/(?=(a*)*b)/.test('aaaaaaaaaaaaaaaaaaaaaaaaaaaaaaaa')",
+    "regex-lookbehind": "/(?<=(?:a|a)*c)x/.test('aaaaaaaaaaaaaaaaaaaaaaaaaaaaaaaaaaax')",
+    "regex-neg-lookahead": "/(?!(a*)*b)a/.test('aaaaaaaaaaaaaaaaaaaaaaaaaaaaaaaa')",
+    "regex-after-eval": "eval('1'); new RegExp('(a*)*b').test('aaaaaaaaaaaaaaaaaaaaaaaaaaaaaaaa')",
+    "regex-after-Function": "new Function('return 1')(); new RegExp('(a*)*b').test('aaaaaaaaaaaaaaaaaaaaaaaaaaaaaaaa')",
+    "regex-in-callback-after-eval": "[1].map(function(){ eval('1'); return new RegExp('(a*)*b').test('aaaaaaaaaaaaaaaaaaaaaaaaaaaaaaaa') })",
+    "regex-sticky": "/(a*)*b/y.test('aaaaaaaaaaaaaaaaaaaaaaaaaaaaaaaa')",
 }
 
 
